@@ -251,6 +251,63 @@ type c19Embedded struct {
 	X string `xsel:"@x"`
 }
 
+// c19CheckStruct fills struct{F ft `xsel:"tag"`; U string; G int `xsel:"count(*)"`}
+// from node n as *T and **T and compares with the expected value.
+func c19CheckStruct(b *impl.Binding, env *c19Env, settings []xsel.ContextApply, n *adoc.Node, ft reflect.Type, tag string) (string, string) {
+	st := reflect.StructOf([]reflect.StructField{
+		{Name: "F", Type: ft, Tag: reflect.StructTag(`xsel:"` + strings.ReplaceAll(tag, `"`, `\"`) + `"`)},
+		{Name: "U", Type: reflect.TypeOf("")},
+		{Name: "G", Type: reflect.TypeOf(0), Tag: `xsel:"count(*)"`},
+	})
+	res := xsel.NodeSet{b.ToCur[n]}
+	distinct := ""
+	for depth := 1; depth <= 2; depth++ {
+		target := reflect.New(st)
+		target.Elem().Field(1).SetString("keep")
+		arg := target
+		if depth == 2 {
+			pp := reflect.New(target.Type())
+			pp.Elem().Set(target)
+			arg = pp
+		}
+		uerr, pan := callUnmarshal(res, arg.Interface(), settings)
+		if pan != "" {
+			return "PANIC: " + pan, ""
+		}
+		want, status := env.expected(st, res, 0)
+		switch status {
+		case stErr:
+			if uerr == nil {
+				return fmt.Sprintf("target cannot be filled / result has the wrong shape, but Unmarshal returned nil (field F = %v)", target.Elem().Field(0).Interface()), ""
+			}
+		case stOK:
+			if uerr != nil {
+				return "unexpected error: " + uerr.Error(), ""
+			}
+			want.Field(1).SetString("keep")
+			if !deepEq(target.Elem(), want) {
+				return fmt.Sprintf("target = %+v, want %+v", derefAll(target.Elem()), derefAll(want)), ""
+			}
+			distinct = ft.String() + "|" + tag + "|" + fmt.Sprint(derefAll(want))
+		case stLenient:
+			if target.Elem().Field(1).String() != "keep" {
+				return "untagged field modified", ""
+			}
+		}
+	}
+	return "", distinct
+}
+
+func c19Settings(b *impl.Binding) []xsel.ContextApply {
+	var nsPaths []xsel.Cursor
+	for _, n := range b.Doc.Nodes {
+		if n.Kind == adoc.Elem && n.Local == "b" {
+			nsPaths = append(nsPaths, b.ToCur[n])
+		}
+	}
+	return []xsel.ContextApply{xsel.WithVariable("v", xsel.Number(42)), xsel.WithVariable("ns", xsel.NodeSet(nsPaths))}
+}
+
 func C19(c *run.Check) {
 	defer finishTriage()
 	docs := c19Docs()
@@ -286,65 +343,21 @@ func C19(c *run.Check) {
 		if err != nil {
 			panic(err)
 		}
-		var nsPaths []xsel.Cursor
-		for _, n := range b.Doc.Nodes {
-			if n.Kind == adoc.Elem && n.Local == "b" {
-				nsPaths = append(nsPaths, b.ToCur[n])
-			}
-		}
-		settings := []xsel.ContextApply{xsel.WithVariable("v", xsel.Number(42)), xsel.WithVariable("ns", xsel.NodeSet(nsPaths))}
+		settings := c19Settings(b)
 		env := &c19Env{b: b, settings: settings}
 		ft, tag := ftypes[j.t], tags[j.g]
-		st := reflect.StructOf([]reflect.StructField{
-			{Name: "F", Type: ft, Tag: reflect.StructTag(`xsel:"` + strings.ReplaceAll(tag, `"`, `\"`) + `"`)},
-			{Name: "U", Type: reflect.TypeOf("")},
-			{Name: "G", Type: reflect.TypeOf(0), Tag: `xsel:"count(*)"`},
-		})
 		for _, n := range b.Doc.Nodes {
 			if n.Kind != adoc.Elem {
 				continue
 			}
-			res := xsel.NodeSet{b.ToCur[n]}
-			// pointer depth variants of the target
-			for depth := 1; depth <= 2; depth++ {
-				target := reflect.New(st)
-				target.Elem().Field(1).SetString("keep")
-				arg := target
-				if depth == 2 {
-					pp := reflect.New(target.Type())
-					pp.Elem().Set(target)
-					arg = pp
-				}
-				c.Evaluations.Add(1)
-				uerr, pan := callUnmarshal(res, arg.Interface(), settings)
-				if pan != "" {
-					report("struct", d, n.Path(), ft.String(), tag, "PANIC: "+pan)
-					return
-				}
-				want, status := env.expected(st, res, 0)
-				switch status {
-				case stErr:
-					if uerr == nil {
-						report("struct", d, n.Path(), ft.String(), tag, fmt.Sprintf("target cannot be filled / result has the wrong shape, but Unmarshal returned nil (field F = %v)", target.Elem().Field(0).Interface()))
-						return
-					}
-				case stOK:
-					if uerr != nil {
-						report("struct", d, n.Path(), ft.String(), tag, "unexpected error: "+uerr.Error())
-						return
-					}
-					want.Field(1).SetString("keep")
-					if !deepEq(target.Elem(), want) {
-						report("struct", d, n.Path(), ft.String(), tag, fmt.Sprintf("target = %+v, want %+v", derefAll(target.Elem()), derefAll(want)))
-						return
-					}
-					c.Distinct(ft.String() + "|" + tag + "|" + fmt.Sprint(derefAll(want)))
-				case stLenient:
-					if target.Elem().Field(1).String() != "keep" {
-						report("struct", d, n.Path(), ft.String(), tag, "untagged field modified")
-						return
-					}
-				}
+			c.Evaluations.Add(2)
+			msg, distinct := c19CheckStruct(b, env, settings, n, ft, tag)
+			if msg != "" {
+				report("struct", d, n.Path(), ft.String(), tag, msg)
+				return
+			}
+			if distinct != "" {
+				c.Distinct(distinct)
 			}
 		}
 		// slice targets of element type ft over node-sets of 0..3 nodes
@@ -516,6 +529,22 @@ func init() {
 	replayers["C19"] = func(raw json.RawMessage) string {
 		var cs c19Case
 		json.Unmarshal(raw, &cs)
+		if cs.Kind == "struct" {
+			for _, ft := range c19FieldTypes() {
+				if ft.String() != cs.Type {
+					continue
+				}
+				b, err := impl.Bind(impl.FromEvents(cs.Events))
+				if err != nil {
+					return err.Error()
+				}
+				n := b.Doc.Resolve(cs.Node)
+				settings := c19Settings(b)
+				fmt.Printf("target: struct{F %s `xsel:%q`; U string; G int `xsel:\"count(*)\"`} filled from %s of %s\n", ft, cs.Tag, n.Describe(), b.Doc.String())
+				msg, _ := c19CheckStruct(b, &c19Env{b: b, settings: settings}, settings, n, ft, cs.Tag)
+				return msg
+			}
+		}
 		return "re-run ./check C19 quick: the case is regenerated from type=" + cs.Type + " tag=" + cs.Tag + " (" + cs.Detail + ")"
 	}
 }
